@@ -415,7 +415,7 @@ theorem rejected_update_known_restores_state (st : St) (kw : List (Name × Val))
 /-- a listener rejecting `a = 5`: the update is refused and nothing changed -/
 example :
     let st : St := ⟨[(0, ⟨.int, .a (.i 0), .a (.i 0)⟩), (1, ⟨.int, .a (.i 0), .a (.i 0)⟩)], [], [],
-      [⟨1, none, fun s _ => (lookup s 0).any (fun o => pyEq o.cur (.a (.i 5)))⟩]⟩
+      [⟨1, none, fun s _ => (lookup s 0).any (fun o => pyEq o.cur (.a (.i 5))), fun _ _ => none⟩]⟩
     (step st (.update [(1, .a (.i 9)), (0, .a (.i 5))])).out = .optionsError ∧
     (step st (.update [(1, .a (.i 9)), (0, .a (.i 5))])).st.opts = st.opts := by decide
 
@@ -488,8 +488,8 @@ theorem rejected_update_listeners_see_restored_state_partial (st : St) (kw : Lis
     `update(a=5)`: 1 sees 5, 2 sees 5 and raises; rollback: 1 sees 0 and raises — 2 is never told. -/
 def cexState : St :=
   ⟨[(0, ⟨.int, .a (.i 0), .a (.i 0)⟩)], [], [],
-   [⟨1, none, fun s _ => (lookup s 0).any (fun o => pyEq o.cur (.a (.i 0)))⟩,
-    ⟨2, none, fun s _ => (lookup s 0).any (fun o => pyEq o.cur (.a (.i 5)))⟩]⟩
+   [⟨1, none, fun s _ => (lookup s 0).any (fun o => pyEq o.cur (.a (.i 0))), fun _ _ => none⟩,
+    ⟨2, none, fun s _ => (lookup s 0).any (fun o => pyEq o.cur (.a (.i 5))), fun _ _ => none⟩]⟩
 
 theorem rejected_update_listeners_see_restored_state_counterexample : ¬ ListenersSeeRestoredState := by
   intro h
@@ -587,7 +587,7 @@ theorem update_is_update_known (st : St) (kw : List (Name × Val)) :
 
 example :
     let st : St := ⟨[(0, ⟨.int, .a (.i 0), .a (.i 0)⟩), (1, ⟨.str, .a (.s []), .a (.s [])⟩)], [],
-      [⟨7, some [1], fun _ _ => false⟩], [⟨8, none, fun _ _ => false⟩]⟩
+      [⟨7, some [1], fun _ _ => false, fun _ _ => none⟩], [⟨8, none, fun _ _ => false, fun _ _ => none⟩]⟩
     (updateKnown st [(0, .a (.i 5)), (9, .a .none)]).out = .ok ∧
     (updateKnown st [(0, .a (.i 5)), (9, .a .none)]).obs.map (·.who) = [8] := by decide
 
@@ -789,5 +789,278 @@ theorem config_roundtrip_nondefault_counterexample :
 example : Reproduces (run [.addOption 0 .bool (.a (.b false)), .update [(0, .a (.b true))]]).1.opts
     (saveLoad (⟨id, some⟩ : Yaml _) (run [.addOption 0 .bool (.a (.b false)), .update [(0, .a (.b true))]]).1.opts) :=
   config_roundtrip_nondefault _ (fun _ => rfl) _
+
+/-! ### listener-issued (nested) updates -/
+
+/-- no listener ever issues an update itself -/
+def Passive (ls : List Listener) : Prop := ∀ l ∈ ls, ∀ s u, l.act s u = none
+
+private theorem notifyW_passive (nested : Store → List (Name × Val) → NRes) (u : List Name) (s : Store)
+    (ls : List Listener) (h : Passive ls) : notifyW nested u s ls = (s, (notify s u ls).1, (notify s u ls).2) := by
+  induction ls with
+  | nil => rfl
+  | cons l r ih =>
+    have hr : Passive r := fun x hx => h x (List.mem_cons_of_mem _ hx)
+    simp only [notifyW, notify, h l List.mem_cons_self s u, ih hr]
+    split
+    · split <;> rfl
+    · rfl
+
+private theorem updateKnownN_passive (st : St) (kw : List (Name × Val)) (h : Passive st.listeners) :
+    updateKnownN st kw = updateKnown st kw := by
+  unfold updateKnownN updateKnown coreUpdate withOpts
+  simp only [notifyW_passive _ _ _ _ h]
+  split
+  · rfl
+  · split
+    · rfl
+    · split <;> rfl
+
+/-- **nested_model_agrees_with_flat.** The model with listener-issued updates (the one the correspondence run
+    executes) coincides with the flat model of the theorems above on every state whose listeners only accept or
+    reject: each operation gives the identical result. -/
+theorem nested_model_agrees_with_flat (st : St) (op : Op) (h : Passive st.listeners) : stepN st op = step st op := by
+  have huk : ∀ (st' : St), st'.listeners = st.listeners → ∀ kw, updateKnownN st' kw = updateKnown st' kw :=
+    fun st' e kw => updateKnownN_passive st' kw (e ▸ h)
+  have hu : ∀ (st' : St), st'.listeners = st.listeners → ∀ kw, updateN st' kw = update st' kw := by
+    intro st' e kw; unfold updateN update; rw [huk st' e]
+  cases op with
+  | addOption n ty d =>
+    simp only [stepN, step, addOptionN, addOption, notifyW_passive _ _ _ _ h]
+  | subscribe l => rfl
+  | update kw => exact hu st rfl kw
+  | updateKnown kw => exact huk st rfl kw
+  | updateDefer kw => simp only [stepN, step, updateDeferN, updateDefer, huk st rfl]
+  | set specs defer =>
+    simp only [stepN, step, setSpecsN, setSpecs]
+    split
+    · rfl
+    · rw [hu st rfl]
+      split
+      · refine hu _ ?_ _; rfl
+      · rfl
+  | processDeferred => simp only [stepN, step, processDeferredN, processDeferred, hu st rfl]
+  | reset => simp only [stepN, step, resetN, reset, notifyW_passive _ _ _ _ h]
+
+/-- nobody reacts to the rollback notification `u` on store `s` by issuing an update -/
+def quiet (u : List Name) (s : Store) (ls : List Listener) : Bool :=
+  ls.all fun l => !concerned l u || l.rejects s u || (l.act s u).isNone
+
+private theorem notifyW_quiet (nested : Store → List (Name × Val) → NRes) (u : List Name) (s : Store)
+    (ls : List Listener) (h : quiet u s ls = true) : (notifyW nested u s ls).1 = s := by
+  induction ls with
+  | nil => rfl
+  | cons l r ih =>
+    simp only [quiet, List.all_cons, Bool.and_eq_true] at h
+    have ihr := ih (by simpa [quiet] using h.2)
+    simp only [notifyW]
+    by_cases hc : concerned l u = true
+    · simp only [hc, if_true]
+      by_cases hr : l.rejects s u = true
+      · simp [hr]
+      · have ha : l.act s u = none := by
+          have h0 := h.1
+          have hr' : l.rejects s u = false := by simpa using hr
+          rw [hc, hr'] at h0
+          cases hact : l.act s u with
+          | none => rfl
+          | some kw => rw [hact] at h0; simp at h0
+        simp only [hr, Bool.false_eq_true, if_false, ha]
+        exact ihr
+    · simp only [hc, Bool.false_eq_true, if_false]
+      exact ihr
+
+/-- **nested_rejected_update_restores_everything.** With listeners that issue updates of other options from inside
+    their handlers (to any depth, successful or themselves rejected): when the outer `update_known` is rejected,
+    the options the rollback notification starts from are exactly the previous ones — every assignment of the aborted
+    transaction, including all nested ones, is discarded; and if no listener reacts to that notification by issuing
+    yet another update, the operation ends with every option at its previous value. -/
+theorem nested_rejected_update_restores_everything (nested : Store → List (Name × Val) → NRes) (ls : List Listener)
+    (s : Store) (kw : List (Name × Val)) (h : (coreUpdate nested ls s kw).out ≠ .ok) :
+    (coreUpdate nested ls s kw).opts = (notifyW nested ((kw.filter fun kv => hasKey s kv.1).map (·.1)) s ls).1 ∨
+      (coreUpdate nested ls s kw).opts = s := by
+  unfold coreUpdate at h ⊢
+  simp only at h ⊢
+  split
+  · exact Or.inr rfl
+  · split
+    · exact Or.inr rfl
+    · split
+      · rename_i h1 h2 h3; simp [h1, h2, h3] at h
+      · exact Or.inl rfl
+
+theorem nested_rejected_update_restores_everything_quiet (st : St) (kw : List (Name × Val))
+    (h : (updateKnownN st kw).out ≠ .ok)
+    (hq : quiet ((kw.filter fun kv => hasKey st.opts kv.1).map (·.1)) st.opts st.listeners = true) :
+    (updateKnownN st kw).st.opts = st.opts := by
+  have := nested_rejected_update_restores_everything (nestedAt maxDepth st.listeners) st.listeners st.opts kw h
+  simp only [updateKnownN, withOpts] at h ⊢
+  rcases this with e | e
+  · rw [e]; exact notifyW_quiet _ _ _ _ hq
+  · exact e
+
+/-- the seeded scenario: listener 1 reacts to `a = 5` by `update(b = 5)`, listener 3 rejects `a = 5` -/
+def nestedState : St :=
+  ⟨[(0, ⟨.int, .a (.i 0), .a (.i 0)⟩), (1, ⟨.int, .a (.i 0), .a (.i 0)⟩)], [],
+   [⟨1, some [0], fun _ _ => false, fun s _ => if (lookup s 0).any (fun o => pyEq o.cur (.a (.i 5))) then some [(1, .a (.i 5))] else none⟩,
+    ⟨3, some [0], fun s _ => (lookup s 0).any (fun o => pyEq o.cur (.a (.i 5))), fun _ _ => none⟩], []⟩
+
+example : (updateKnownN nestedState [(0, .a (.i 5))]).out = .optionsError ∧
+    (updateKnownN nestedState [(0, .a (.i 5))]).st.opts = nestedState.opts ∧
+    ((updateKnownN nestedState [(0, .a (.i 5))]).obs.map fun ob => (ob.who, ob.seen.map fun p => p.2.cur)) =
+      [(1, [.a (.i 5), .a (.i 0)]), (3, [.a (.i 5), .a (.i 5)]), (1, [.a (.i 0), .a (.i 0)]), (3, [.a (.i 0), .a (.i 0)])] := by
+  decide
+
+/-! typedness with nested updates -/
+
+private def NGood (r : NRes) : Prop :=
+  TypedStore r.opts ∧ KeysNodup r.opts ∧ ∀ ob ∈ r.obs, TypedStore ob.seen
+
+private def NestedGood (nested : Store → List (Name × Val) → NRes) : Prop :=
+  ∀ s kw, TypedStore s → KeysNodup s → NGood (nested s kw)
+
+private theorem notifyW_good (nested : Store → List (Name × Val) → NRes) (hn : NestedGood nested) (u : List Name)
+    (ls : List Listener) : ∀ s, TypedStore s → KeysNodup s →
+    TypedStore (notifyW nested u s ls).1 ∧ KeysNodup (notifyW nested u s ls).1 ∧
+      ∀ ob ∈ (notifyW nested u s ls).2.1, TypedStore ob.seen := by
+  induction ls with
+  | nil => intro s h1 h2; exact ⟨h1, h2, by simp [notifyW]⟩
+  | cons l r ih =>
+    intro s h1 h2
+    simp only [notifyW]
+    split
+    · split
+      · exact ⟨h1, h2, by intro ob hob; simp only [List.mem_singleton] at hob; subst hob; exact h1⟩
+      · split
+        · obtain ⟨a, b, c⟩ := ih s h1 h2
+          refine ⟨a, b, ?_⟩
+          intro ob hob
+          rcases List.mem_cons.mp hob with e | e
+          · subst e; exact h1
+          · exact c ob e
+        · rename_i kw _
+          obtain ⟨n1, n2, n3⟩ := hn s kw h1 h2
+          split
+          · refine ⟨n1, n2, ?_⟩
+            intro ob hob
+            rcases List.mem_cons.mp hob with e | e
+            · subst e; exact h1
+            · exact n3 ob e
+          · obtain ⟨a, b, c⟩ := ih _ n1 n2
+            refine ⟨a, b, ?_⟩
+            intro ob hob
+            rcases List.mem_cons.mp hob with e | e
+            · subst e; exact h1
+            · rcases List.mem_append.mp e with e | e
+              · exact n3 ob e
+              · exact c ob e
+    · exact ih s h1 h2
+
+private theorem coreUpdate_good (nested : Store → List (Name × Val) → NRes) (hn : NestedGood nested)
+    (ls : List Listener) (s : Store) (kw : List (Name × Val)) (h1 : TypedStore s) (h2 : KeysNodup s) :
+    NGood (coreUpdate nested ls s kw) := by
+  unfold coreUpdate
+  simp only
+  split
+  · exact ⟨h1, h2, by simp⟩
+  · split
+    · exact ⟨h1, h2, by simp⟩
+    · rename_i _ hall
+      have hall' : allTyped s (kw.filter fun kv => hasKey s kv.1) = true := by simpa using hall
+      have hnew := typed_assign _ s h1 hall'
+      have hkn : KeysNodup (assign s (kw.filter fun kv => hasKey s kv.1)) := by
+        unfold KeysNodup; rw [assign_keys]; exact h2
+      obtain ⟨a1, b1, c1⟩ := notifyW_good nested hn ((kw.filter fun kv => hasKey s kv.1).map (·.1)) ls _ hnew hkn
+      split
+      · exact ⟨a1, b1, c1⟩
+      · obtain ⟨a2, b2, c2⟩ := notifyW_good nested hn ((kw.filter fun kv => hasKey s kv.1).map (·.1)) ls _ h1 h2
+        refine ⟨a2, b2, ?_⟩
+        intro ob hob
+        rcases List.mem_append.mp hob with e | e
+        · exact c1 ob e
+        · exact c2 ob e
+
+private theorem nestedAt_good (ls : List Listener) : ∀ d, NestedGood (nestedAt d ls) := by
+  intro d
+  induction d with
+  | zero => intro s kw h1 h2; exact ⟨h1, h2, by simp [nestedAt]⟩
+  | succ d ih =>
+    intro s kw h1 h2
+    have := coreUpdate_good (fun s' kw' => nestedAt d ls s' kw') ih ls s kw h1 h2
+    simp only [nestedAt, keyErr]
+    split <;> exact this
+
+private theorem good_updateKnownN (st : St) (kw : List (Name × Val)) (h : TypedStore st.opts) (hn : KeysNodup st.opts) :
+    Good (updateKnownN st kw) :=
+  coreUpdate_good _ (nestedAt_good st.listeners maxDepth) st.listeners st.opts kw h hn
+
+private theorem good_updateN (st : St) (kw : List (Name × Val)) (h : TypedStore st.opts) (hn : KeysNodup st.opts) :
+    Good (updateN st kw) := by
+  have := good_updateKnownN st kw h hn
+  unfold updateN; simp only; split <;> exact this
+
+private theorem good_stepN (st : St) (op : Op) (h : TypedStore st.opts) (hn : KeysNodup st.opts) : Good (stepN st op) := by
+  cases op with
+  | addOption n ty d =>
+    simp only [stepN, addOptionN]
+    split
+    · exact ⟨h, hn, by simp⟩
+    · rename_i hd
+      have hd' : typeOk ty d = true := by simpa using hd
+      exact notifyW_good _ (nestedAt_good st.listeners maxDepth) [n] st.listeners _
+        (typed_insertOpt st.opts n ty d h hd') (nodup_insertOpt _ _ _ hn)
+  | subscribe l => exact good_subscribe st l h hn
+  | update kw => exact good_updateN st kw h hn
+  | updateKnown kw => exact good_updateKnownN st kw h hn
+  | updateDefer kw =>
+    have := good_updateKnownN st kw h hn
+    simp only [stepN, updateDeferN]; split <;> exact this
+  | set specs defer =>
+    simp only [stepN, setSpecsN]
+    split
+    · exact ⟨h, hn, by simp⟩
+    · split
+      · exact good_updateN _ _ h hn
+      · split
+        · exact ⟨h, hn, by simp⟩
+        · exact good_updateN _ _ h hn
+  | processDeferred =>
+    simp only [stepN, processDeferredN]
+    split
+    · exact ⟨h, hn, by simp⟩
+    · rename_i upd _
+      have := good_updateN st upd h hn
+      split <;> exact this
+  | reset =>
+    simp only [stepN, resetN]
+    have hnew : TypedStore (st.opts.map fun p => (p.1, { p.2 with cur := p.2.dflt })) := by
+      intro q hq
+      obtain ⟨p, hp, rfl⟩ := List.mem_map.mp hq
+      exact ⟨(h p hp).1, (h p hp).1⟩
+    have hk : KeysNodup (st.opts.map fun p => (p.1, { p.2 with cur := p.2.dflt })) := by
+      simp only [KeysNodup, List.map_map]; exact hn
+    exact notifyW_good _ (nestedAt_good st.listeners maxDepth) _ st.listeners _ hnew hk
+
+private theorem good_runFromN (ops : List Op) : ∀ st : St, TypedStore st.opts → KeysNodup st.opts →
+    TypedStore (runFromN st ops).1.opts ∧ ∀ ob ∈ (runFromN st ops).2, TypedStore ob.seen := by
+  induction ops with
+  | nil => intro st h _; exact ⟨h, by simp [runFromN]⟩
+  | cons op r ih =>
+    intro st h hn
+    obtain ⟨g1, g2, g3⟩ := good_stepN st op h hn
+    obtain ⟨i1, i3⟩ := ih (stepN st op).st g1 g2
+    refine ⟨i1, ?_⟩
+    intro ob hob
+    simp only [runFromN] at hob
+    rcases List.mem_append.mp hob with hob | hob
+    · exact g3 ob hob
+    · exact i3 ob hob
+
+/-- **typed_always_nested.** `typed_always` for the model with listener-issued nested updates: after ANY history,
+    with listeners that accept, reject or update other options from inside their handlers (nested to the model's depth
+    bound), every option holds values of its declared type, and so did every state shown to any listener at any depth. -/
+theorem typed_always_nested (ops : List Op) :
+    TypedStore (runN ops).1.opts ∧ ∀ ob ∈ (runN ops).2, TypedStore ob.seen :=
+  good_runFromN ops St.empty (by intro p hp; simp [St.empty] at hp) (by simp [St.empty, KeysNodup])
 
 end MitmVerif.Props.C44
